@@ -1,6 +1,7 @@
 import EV.Drv.Notif
 import EV.Drv.Index
 import EV.Drv.Merkle
+import EV.Drv.Peers
 
 /-!
 `evdrv <suite>`: reads one operation per line on stdin, applies it to the Lean model of that
@@ -31,4 +32,5 @@ def main (args : List String) : IO UInt32 := do
   | ["notif-orig"] => Drv.loop stdin stdout (Drv.NotifD.stepLine 1) EV.Notif.init; return 0
   | ["index"] => Drv.loop stdin stdout Drv.IndexD.stepLine {}; return 0
   | ["merkle"] => Drv.loop stdin stdout Drv.MerkleD.stepLine Drv.MerkleD.init; return 0
+  | ["peers"] => Drv.loop stdin stdout Drv.PeersD.stepLine (); return 0
   | _ => IO.eprintln "usage: evdrv <suite>"; return 2
